@@ -211,6 +211,20 @@ def generate(rng, idx, tier):
 WRAPPED = {}     # id(comment wrapper object) -> the child it wraps (harness-owned; per run)
 
 
+def _leaf(n):
+    """leaves are unique by their number; every fifth kind of them has an unusual shape"""
+    k = n % 10
+    if k == 3:
+        return 'leaf %d: ' % n + 'a string long enough to be split over several lines ' * 3
+    if k == 5:
+        return ('tab\t nul\x00 quote\' "dq" backslash\\ sn\u00f6w \u2603 #%d' % n)
+    if k == 7:
+        return b'bytes \x00\xff ' * 6 + str(n).encode()
+    if k == 8:
+        return -float(n) / 7
+    return n
+
+
 def _unwrap(v):
     while id(v) in WRAPPED:
         v = WRAPPED[id(v)][1]
@@ -291,6 +305,8 @@ def parse(text):
     def conv(e):
         if isinstance(e, ast.Constant):
             return ['leaf', e.value]
+        if isinstance(e, ast.UnaryOp) and isinstance(e.operand, ast.Constant):
+            return ['leaf', ast.literal_eval(e)]
         if isinstance(e, ast.Name) and e.id.startswith('__R_'):
             _, _, _, t, i = e.id.split('_')
             return ['mark', t, int(i)]
@@ -331,6 +347,7 @@ def execute(spec):
     warnings.simplefilter('ignore')
     sys.setrecursionlimit(5000)
     nodes = []
+    keykind = {}     # id(dict) -> True if this dict gets non-string keys (decided at its first key)
     WRAPPED.clear()
     leaf = [100]
     counters = {}
@@ -397,7 +414,7 @@ def execute(spec):
             p = nodes[op[1] % len(nodes)]
             if op[2] == 'leaf':
                 leaf[0] += 1
-                c = leaf[0]
+                c = _leaf(leaf[0])
             else:
                 c = nodes[op[2] % len(nodes)]
             t = tgt(p)
@@ -410,7 +427,12 @@ def execute(spec):
             if isinstance(t, (list, collections.deque)):
                 t.append(c)
             elif isinstance(t, dict):
-                t['k%02d' % len(t)] = c
+                n_k = len(t)
+                key = 'k%02d' % n_k
+                if keykind.setdefault(id(t), type(t) is dict and len(keykind) % 3 == 2):
+                    # keys that are not strings (ints, tuples, None-free so that they stay sortable among themselves)
+                    key = (n_k, 'k') if n_k % 2 else (n_k,)
+                t[key] = c
             elif isinstance(t, types.SimpleNamespace):
                 setattr(t, 'k%02d' % len(vars(t)), c)
             else:
@@ -425,7 +447,11 @@ def execute(spec):
                 if isinstance(t, (list, collections.deque)):
                     t.append(leaf[0])
                 elif isinstance(t, dict):
-                    t['k%02d' % len(t)] = leaf[0]
+                    n_k = len(t)
+                    if keykind.setdefault(id(t), type(t) is dict and len(keykind) % 3 == 2):
+                        t[(n_k, 'k') if n_k % 2 else (n_k,)] = leaf[0]
+                    else:
+                        t['k%02d' % n_k] = leaf[0]
                 elif isinstance(t, types.SimpleNamespace):
                     setattr(t, 'k%02d' % len(vars(t)), leaf[0])
                 else:
